@@ -16,7 +16,7 @@ Definition jv_res (pid : Z) (r : res) : jv :=
 Definition run_ladder (p : plat) (meth site : string) (e : err) (s : pstate) (pid : Z) : jv :=
   let c := Build_cond e s (pid =? 0) in
   JL [ jv_res pid (method_outcome p meth site c);
-       (if err_ok p e then jopt (jv_res pid) (demanded p meth site c) else jnone);
+       (if err_ok p e && negb (known_pid0_unlisted p meth site c) then jopt (jv_res pid) (demanded p meth site c) else jnone);
        jopt (jv_res pid) (contract p meth site c) ].
 
 Definition jv_fval (v : fval) : jv := match v with FZ z => JZ z | FNone => jnone end.
@@ -80,4 +80,7 @@ Definition run_tables : jv :=
        jbool (forallb smap_bijective slot_maps && forallb smap_native_ok slot_maps && smaps_complete slot_maps);
        jbool (usage_complete usage_rows);
        jbool (forallb names_ok names_rows && names_complete names_rows);
-       jbool (forallb nic_ok nic_rows) ].
+       jbool (forallb nic_ok nic_rows);
+       JL (map (fun b => JL [jstr (sb_meth b); jstr (sb_site b); jstr (sb_code b)])
+               (filter (fun b => negb (sblock_spec_ok b && sblock_model_ok b)) status_blocks));
+       jbool (forallb srow_ok status_rows && sblocks_complete status_rows ladder_blocks status_blocks) ].
